@@ -678,6 +678,64 @@ def check(ctx):
     if n8 < 30:
         raise AnalysisError('C12.R8 saw only %d error constructions' % n8)
 
+    # ---- R9: what the type check lets through, the codecs can encode - or refuse with the library's own error.  Two places where the check is wider than the codec:
+    #      (a) INTEGER: the checker admits `str` (named numbers were meant), and no binary codec converts a str: '<' / bit_length on a str is a TypeError / AttributeError;
+    #      (b) OBJECT IDENTIFIER: any str passes, the conversion of the arcs (int(), identifiers[1]) raises ValueError / IndexError for a text that is not a dotted number
+    #          list.  (b) is decided by evaluating ber.encode_object_identifier (shared by BER, DER, PER, UPER, OER) on malformed texts.
+    ctx.rule('C12.R9', 'the types / texts the type check admits are encodable by the binary codecs, or refused with EncodeError (no TypeError / ValueError / IndexError from the codec)')
+    tcm9 = model.mod('asn1tools/codecs/type_checker.py')
+    icls9 = tcm9.classes.get('Integer')
+    admitted = set()
+    if icls9 is not None and 'encode' in icls9.methods:
+        for c_ in walk_no_nested(icls9.methods['encode']):
+            if isinstance(c_, ast.Call) and isinstance(c_.func, ast.Name) and c_.func.id == 'isinstance' and len(c_.args) == 2:
+                t_ = c_.args[1]
+                for e_ in (t_.elts if isinstance(t_, ast.Tuple) else [t_]):
+                    if isinstance(e_, ast.Name):
+                        r_ = tcm9.resolve_name(e_.id)
+                        if isinstance(r_, tuple) and r_[0] == 'const' and isinstance(r_[1], ast.Tuple):
+                            admitted |= {x_.id for x_ in r_[1].elts if isinstance(x_, ast.Name)}
+                        else:
+                            admitted.add(e_.id)
+    handles = []
+    for cn9 in ('ber', 'per', 'oer'):
+        k9 = model.mod('asn1tools/codecs/%s.py' % cn9).classes.get('Integer')
+        if k9 is None:
+            continue
+        fam9 = [g_ for kk in k9.mro() for g_ in kk.methods.values() if g_.name.startswith('encode')]
+        if any(isinstance(c_, ast.Call) and isinstance(c_.func, ast.Name) and c_.func.id == 'isinstance' and len(c_.args) == 2 and 'str' in ast.unparse(c_.args[1])
+               for g_ in fam9 for c_ in walk_no_nested(g_)):
+            handles.append(cn9)
+    ok9a = 'str' not in admitted or len(handles) == 3
+    ctx.instance('C12.R9', 'INTEGER: the type check admits %s; codecs that convert a str: %s' % (sorted(admitted), handles or 'none'), 'ok' if ok9a else 'VIOLATION',
+                 node=icls9.methods['encode'] if icls9 is not None and 'encode' in icls9.methods else None, file=tcm9.rel)
+    if not ok9a:
+        ctx.violation('C12.R9', tcm9.rel, icls9.methods['encode'], 'asn1tools/codecs/type_checker.py::Integer.encode',
+                      'the type check admits a str for INTEGER, and no binary codec converts one: encode(INTEGER, "1") raises TypeError (\'<\' not supported between str and int) in BER / DER, '
+                      'AttributeError (bit_length) in PER / UPER / OER - a foreign exception without the path - while JER / XER / GSER emit the text as the number', stmt='str admitted for INTEGER')
+    from .. import evalexpr as _ev9
+    eo9 = model.mod('asn1tools/codecs/ber.py').functions.get('encode_object_identifier')
+    foreign = None
+    n9 = 0
+    if eo9 is not None:
+        p9 = flow.param_names(eo9)[0]
+        for txt in ('', '1', 'a.b', '1..2', '1.2.x', '.1.2'):
+            try:
+                _ev9.run_function(eo9, {p9: txt})
+                n9 += 1
+            except _ev9.Raised as e_:
+                n9 += 1
+                if not (set(e_.mro or [e_.name]) & {'EncodeError', 'Error', 'ConstraintsError'}):
+                    foreign = foreign or (txt, e_.name)
+            except _ev9.Unsupported:
+                pass
+    ctx.instance('C12.R9', 'ber.encode_object_identifier evaluated on %d texts that are not dotted number lists' % n9, 'VIOLATION' if foreign else ('ok' if n9 else 'undecided'),
+                 nontrivial=n9 > 0, node=eo9, file='asn1tools/codecs/ber.py')
+    if foreign:
+        ctx.violation('C12.R9', 'asn1tools/codecs/ber.py', eo9, 'asn1tools/codecs/ber.py::encode_object_identifier',
+                      'the type check accepts any str for OBJECT IDENTIFIER; encode_object_identifier(%r) raises %s - a foreign exception without the path to the component - in BER, DER, PER, '
+                      'UPER and OER' % foreign, stmt='malformed object identifier text')
+
 
 OER = 'asn1tools/codecs/oer.py'
 PER = 'asn1tools/codecs/per.py'
